@@ -157,7 +157,7 @@ func judgePSProbe(r *Run) []Finding {
 }
 
 func psScenario(r *kernel.Rand, mode string, nea, nia int, optIEs bool) *scn.Scenario {
-	o := GenOpts{Profile: "ps-" + mode, Mode: "test", MinReg: 1, MaxReg: 1, Sessions: mode != "register", Latency: "swarm-fast", ExplicitUEs: 1, OptIEs: optIEs}
+	o := GenOpts{Profile: "ps-" + mode, Mode: "test", MinReg: 1, MaxReg: 1, Sessions: mode != "register", Latency: "swarm-fast", ExplicitUEs: 1, OptIEs: optIEs, TopLevelOpts: mode == "establish"}
 	s := Gen(r.Uint64(), o)
 	s.Args = []string{}
 	s.Rig = map[string]interface{}{"mode": mode, "nea": nea, "nia": nia, "ran_id": r.Intn(1 << 31)}
